@@ -2,16 +2,16 @@
 C01 — the cached components of the natives that are not part of Model/Ledger/Natives.lean, each as a `Comp`
 (Model/Ledger/Comp.lean), as written in pkg/core/native:
 
-  settings     scalar settings mirrored in a cache: Policy attribute fees / MaxValidUntilBlockIncrement /
-               MaxTraceableBlocks / MillisecondsPerBlock (policy.go), Notary MaxNotValidBeforeDelta (notary.go),
-               Oracle request price (oracle.go), NEO register price (native_neo.go)
+  settings     an UNGUARDED scalar setter and its variant writing through GetROCache: kept only to state what the layer
+               discipline protects against (`settings_ro_write_breaks_coherence`); the setters as written, with their
+               guards, are Model/Ledger/Guarded.lean (gsettings)
   whitelist    Policy whitelisted fees (policy.go:845-990)
-  designate    RoleManagement: node lists by (role, activation height), cache = latest record per role
-               (designate.go: designateAsRoleInternal, updateCachedRoleData, InitializeCache)
   management   ContractManagement: contract records and the next contract id (management.go)
+  (RoleManagement storage/cache types and `maxEntry` live here; the guarded component is Guarded.gdesignate)
 
-and two NEO caches whose coherence is a lookup property, not an equality (own small state machines):
-  gasPerBlock  NeoCache.gasPerBlock is append-only, storage overwrites (native_neo.go SetGASPerBlock)
+and two NEO caches whose coherence is a lookup property, not an equality:
+  gasPerBlock  NeoCache.gasPerBlock is append-only, storage overwrites: `insertRec`, `gpbLookup` here, the guarded
+               component is Guarded.gpb
   gasPerVote   NeoCache.gasPerVoteCache is a partial cache filled on write, empty after a restart
 -/
 import NeoModel.Model.Ledger.Comp
@@ -40,17 +40,6 @@ def settings : Comp (List (Nat × Int)) (List (Nat × Int)) SetOp where
   leak := fun c o => match o with
     | .set _ _ => c
     | .setViaRO k v => aput c k v
-
-/-- the operations the code really has -/
-def SetOp.disciplined : SetOp → Bool
-  | .set _ _ => true
-  | .setViaRO _ _ => false
-
-/-- the component restricted to the calls that exist in the code -/
-def settingsRW : Comp (List (Nat × Int)) (List (Nat × Int)) { o : SetOp // o.disciplined = true } where
-  exec := fun s c h o => settings.exec s c h o.1
-  init := settings.init
-  leak := fun c o => settings.leak c o.1
 
 -- whitelisted fees ------------------------------------------------------------------------------------
 abbrev WKey := Nat × Nat
@@ -89,32 +78,6 @@ def maxEntry (s : RoleStore) (r : Nat) : Option (Nat × List Nat) :=
         | none => some (e.1.2, e.2))
     else acc) none
 
-inductive RoleOp where
-  /-- designateAsRole(role, nodes) in a block of index `h` (the record becomes active at h+1) -/
-  | designate (role : Nat) (nodes : List Nat)
-deriving DecidableEq, Repr
-
-def designate : Comp RoleStore RoleCache RoleOp where
-  exec := fun s c h o => match o with
-    | .designate r nodes =>
-      if !roleList.contains r || nodes.isEmpty || nodes.length > 32 then none
-      else if (s.find? (·.1 == (r, h + 1))).isSome then none     -- ErrAlreadyDesignated
-      else
-        let s' := ((r, h + 1), nodes) :: s
-        -- updateCachedRoleData: re-read the latest record of this role from storage
-        some (s', c.map fun (r', v) => if r' = r then (r', maxEntry s' r) else (r', v))
-  init := fun s => roleList.map fun r => (r, maxEntry s r)
-  leak := fun c _ => c
-
-/-- GetDesignatedByRole(r, index): cache if its record is active at `index`, else storage -/
-def activeAt (s : RoleStore) (index : Nat) (r : Nat) : Option (Nat × List Nat) :=
-  maxEntry (s.filter fun e => e.1.2 ≤ index) r
-
-def designatedCached (s : RoleStore) (c : RoleCache) (r index : Nat) : Option (Nat × List Nat) :=
-  match (c.find? (·.1 == r)).map (·.2) with
-  | some (some (h, n)) => if h ≤ index then some (h, n) else activeAt s index r
-  | _ => none
-
 -- ContractManagement -----------------------------------------------------------------------------------------
 structure MgmtStore where
   contracts : List (Nat × (Int × Nat))   -- contract hash ↦ (id, update counter)
@@ -142,44 +105,14 @@ def management : Comp MgmtStore (List (Nat × (Int × Nat))) MgmtOp where
   leak := fun c _ => c
 
 -- NEO gasPerBlock ---------------------------------------------------------------------------------------------
-structure GpbState where
-  store : List (Nat × Int)   -- prefix 29: index ↦ value (one record per index)
-  cache : List (Nat × Int)   -- NeoCache.gasPerBlock: append-only, newest last
-deriving DecidableEq, Repr
-
-/-- SetGASPerBlock in a block of index h: record for index h+1 -/
-def gpbSet (g : GpbState) (h : Nat) (v : Int) : GpbState :=
-  { store := aput g.store (h + 1) v, cache := g.cache ++ [(h + 1, v)] }
-
-/-- getSortedGASRecordFromDAO: records ordered by index -/
+/-- getSortedGASRecordFromDAO: records ordered by index (insertion into an ordered list) -/
 def insertRec (x : Nat × Int) : List (Nat × Int) → List (Nat × Int)
   | [] => [x]
   | y :: r => if x.1 ≤ y.1 then x :: y :: r else y :: insertRec x r
-def gpbRestart (g : GpbState) : GpbState := { g with cache := g.store.foldr insertRec [] }
 
-/-- GetGASPerBlock(index): the last cached record with Index ≤ index -/
+/-- GetGASPerBlock(index): the last cached record with Index ≤ index (native_neo.go:687-697) -/
 def gpbLookup (l : List (Nat × Int)) (index : Nat) : Option Int :=
   ((l.reverse.find? fun e => e.1 ≤ index)).map (·.2)
-
-inductive GpbOp where
-  | set (h : Nat) (v : Int)
-  | restart
-deriving DecidableEq, Repr
-
-def gpbRun (g : GpbState) : List GpbOp → GpbState
-  | [] => g
-  | .set h v :: os => gpbRun (gpbSet g h v) os
-  | .restart :: os => gpbRun (gpbRestart g) os
-
-/-- records set one after the other (index = block index + 1) -/
-def gpbFold (g : GpbState) : List (Nat × Int) → GpbState
-  | [] => g
-  | (h, v) :: r => gpbFold (gpbSet g h v) r
-
-/-- block indices strictly increasing from `b - 1` on (at most one setGasPerBlock per block) -/
-def Increasing : Nat → List (Nat × Int) → Prop
-  | _, [] => True
-  | b, (h, _) :: r => b ≤ h + 1 ∧ Increasing (h + 2) r
 
 -- NEO gasPerVote -------------------------------------------------------------------------------------------------
 structure GpvState where
